@@ -989,6 +989,158 @@ def gen1(units, R):
          key='census', file='cJSON_Utils.c', line=0)
 
 
+# ---- ESC2: the text is longer than the name ------------------------------------------------------------------------------------
+
+def esc2(units, R, floor=0):
+    """Where a function appends an encoded member name to a text whose length it keeps itself (the encoder is handed
+    B + L + c, L a variable or a field) and afterwards moves L forward over what it wrote, the step is the length of the
+    encoded name: an amount computed from strlen() of that same name is too short whenever the name contains '~' or '/',
+    and the next thing appended lands inside the name."""
+    u = units['cJSON_Utils.c']
+    n = 0
+    for fn in u.function_list:
+        if fn.body is None or fn.name in ('encode_string_as_pointer', 'pointer_encoded_length'):
+            continue
+        cfg = None
+        for c in fn.calls():
+            if callee_name(c) != 'encode_string_as_pointer' or len(c['args']) < 2:
+                continue
+            key = expr_str(strip_casts(c['args'][1]))
+            # the parts of the destination: B + L (+ c)
+            parts = []
+            work = [strip_casts(c['args'][0])]
+            while work:
+                x = strip_casts(work.pop())
+                if x.get('k') == 'bin' and x['op'] == '+':
+                    work += [x['l'], x['r']]
+                else:
+                    parts.append(x)
+            lens = [x for x in parts if x.get('k') in ('ref', 'mem') and u.ty(x.get('ty0', x['ty']))['c'] == 'int']
+            if not lens:
+                continue
+            cfg = cfg or fn.cfg()
+            cn = cfg.node_of_expr(c['id'])
+            after = cfg.reachable(cn.id) if cn is not None else set()
+            # counts taken of the same name
+            raw_vars, enc_vars = set(), set()
+            for a in list(assignments(fn)) + [{'l': {'k': 'ref', 'd': d_['d']}, 'r': d_['init'], 'op': '='} for d_ in fn.locals() if 'init' in d_]:
+                if a['op'] != '=' or strip_casts(a['l']).get('k') != 'ref':
+                    continue
+                for x in walk(a['r']):
+                    if x.get('k') == 'call' and x.get('args') and expr_str(strip_casts(x['args'][0])) == key:
+                        if callee_name(x) in ('strlen', '__builtin_strlen'):
+                            raw_vars.add(strip_casts(a['l'])['d'])
+                        elif callee_name(x) == 'pointer_encoded_length':
+                            enc_vars.add(strip_casts(a['l'])['d'])
+            for a in assignments(fn):
+                an = cfg.node_of_expr(a['id'])
+                if an is None or an.id not in after or a['op'] not in ('+=', '='):
+                    continue
+                for L in lens:
+                    if expr_str(strip_casts(a['l'])) != expr_str(L):
+                        continue
+                    if a['op'] == '=' and not any(expr_str(x) == expr_str(L) for x in walk(a['r'])):
+                        continue
+                    raw = any((x.get('k') == 'call' and callee_name(x) in ('strlen', '__builtin_strlen') and x.get('args') and
+                               expr_str(strip_casts(x['args'][0])) == key) or (x.get('k') == 'ref' and x.get('d') in raw_vars) for x in walk(a['r']))
+                    enc = any((x.get('k') == 'call' and callee_name(x) == 'pointer_encoded_length' and x.get('args') and
+                               expr_str(strip_casts(x['args'][0])) == key) or (x.get('k') == 'ref' and x.get('d') in enc_vars) for x in walk(a['r']))
+                    if not raw and not enc:
+                        continue
+                    n += 1
+                    R.ob('ESC2', fn, a, 'the text grows by the length of the encoded name', not raw,
+                         '%s moves forward by the encoded length of %s' % (expr_str(L)[:30], key[:30]) if not raw else
+                         '%s moves forward by strlen(%s), but %s wrote the encoded name there: two characters for every \'~\' and \'/\', so '
+                         'the recorded end lies inside the name and what is appended next overwrites its tail' % (
+                             expr_str(L)[:30], key[:30], 'encode_string_as_pointer'), key='grow:%s' % expr_str(L)[:30])
+    R.floor('ESC2', 'lengths moved over an encoded name', n, floor)
+
+
+# ---- ESC3: a name is not compared with a token byte by byte ---------------------------------------------------------------------
+
+def esc3(units, R, floor=0):
+    """A member name and a reference token of a JSON pointer are different spellings of one string: '~' and '/' of the name are
+    "~0" and "~1" in the token, and the token ends at '/' as well as at the terminator.  compare_pointers knows that.  Where a
+    function that hands a name and a token to compare_pointers also compares a byte of that name with a byte of that token
+    directly, and one outcome of the comparison passes the member over without asking compare_pointers, the comparison is
+    only sound for a token byte that is neither '~' nor '/': the branch must lie behind tests that exclude both."""
+    u = units['cJSON_Utils.c']
+    n = 0
+    for fn in u.function_list:
+        if fn.body is None or fn.name == 'compare_pointers':
+            continue
+        calls = [c for c in fn.calls() if callee_name(c) == 'compare_pointers' and len(c['args']) >= 2]
+        if not calls:
+            continue
+        cfg = fn.cfg()
+
+        def byte_of(e):
+            e = strip_casts(e)
+            if e.get('k') == 'idx':
+                return expr_str(strip_casts(e['b'])), expr_str(strip_casts(e['i']))
+            if e.get('k') == 'un' and e['op'] == '*':
+                return expr_str(strip_casts(e['e'])), '0'
+            return None, None
+        for c in calls:
+            K, T = expr_str(strip_casts(c['args'][0])), expr_str(strip_casts(c['args'][1]))
+            cnode = cfg.node_of_expr(c['id'])
+            # variables the name is made of, and what they are made of: a new value of any of them is the next member
+            kvars = {x.get('d') for x in walk(c['args'][0]) if x.get('k') == 'ref'}
+            for d_ in fn.locals():
+                if d_['d'] in kvars and 'init' in d_:
+                    kvars |= {x.get('d') for x in walk(d_['init']) if x.get('k') == 'ref'}
+            renew = set()
+            for m in cfg.nodes:
+                if m.kind == 'decl' and m.decl is not None and m.decl.get('d') in kvars:
+                    renew.add(m.id)
+                for ev in node_effects(m):
+                    if ev.kind in ('store', 'incdec') and is_ref(ev.lhs) and strip_casts(ev.lhs)['d'] in kvars:
+                        renew.add(m.id)
+            for m in cfg.nodes:
+                if m.kind != 'branch' or m.expr is None:
+                    continue
+                e = strip_casts(m.expr)
+                if e.get('k') != 'bin' or e['op'] not in ('==', '!='):
+                    continue
+                (b1, i1), (b2, i2) = byte_of(e['l']), byte_of(e['r'])
+                if b1 is None or b2 is None:
+                    continue
+                if (b1, b2) == (K, T):
+                    ti = i2
+                elif (b2, b1) == (K, T):
+                    ti = i1
+                else:
+                    continue
+                # does an outcome pass the member over?
+                skips = False
+                for (y, l) in cfg.succ[m.id]:
+                    if cnode is not None and y != cnode.id and cnode.id not in cfg.reachable(y, stop=renew) and y not in renew:
+                        skips = True
+                    elif cnode is not None and y in renew:
+                        skips = True
+                if not skips:
+                    continue
+                n += 1
+
+                def excludes(ch):
+                    def pred(nd, label):
+                        if nd.kind != 'branch' or label is None or label[0] not in ('T', 'F') or nd.expr is None:
+                            return False
+                        pc = cmp_parts(nd.expr)
+                        if pc is None or pc[2] != ch or pc[1] not in ('==', '!='):
+                            return False
+                        bb, ii = byte_of(pc[0])
+                        return (bb, ii) == (T, ti) and (label[0] == 'T') == (pc[1] == '!=')
+                    return pred
+                missing = [repr(chr(ch)) for ch in (ord('~'), ord('/')) if not guarded_by(cfg, m.id, excludes(ch))]
+                R.ob('ESC3', fn, m.expr, 'a byte of the name is compared with a byte of the token only where the token byte stands for itself',
+                     not missing, 'the token byte is known to be neither \'~\' nor \'/\'' if not missing else
+                     '%s decides without compare_pointers although %s[%s] may be %s: a name that begins with \'~\' or \'/\' is spelled '
+                     '"~0.." / "~1.." in the token, and the empty name has the token end there - such members are passed over' % (
+                         expr_str(e)[:50], T[:30], ti, ' or '.join(missing)), key='raw:%s' % expr_str(e)[:40])
+    R.floor('ESC3', 'raw comparisons of name bytes with token bytes', n, floor)
+
+
 # ---- DIG1: digit-counting loops agree with their radix ----------------------------------------------------------------------
 
 def dig1(units, R, unit_names=('cJSON.c', 'cJSON_Utils.c')):
